@@ -102,6 +102,67 @@ def _struct_pack_formats(path: Path, cls: str, meth: str):
     return []
 
 
+def _btg_reserved(path: Path) -> str:
+    tree = ast.parse(path.read_text())
+    rd = wr = 0
+    for fn in ast.walk(tree):
+        if isinstance(fn, ast.FunctionDef) and fn.name == "parse_as_header":
+            for c in ast.walk(fn):
+                if (isinstance(c, ast.Call) and isinstance(c.func, ast.Attribute) and c.func.attr == "read" and c.args
+                        and isinstance(c.args[0], ast.Constant) and isinstance(c.args[0].value, int)):
+                    rd = c.args[0].value
+        if isinstance(fn, ast.FunctionDef) and fn.name == "stream_header":
+            for c in ast.walk(fn):
+                if (isinstance(c, ast.BinOp) and isinstance(c.op, ast.Mult) and isinstance(c.left, ast.Constant)
+                        and c.left.value == b"\0" and isinstance(c.right, ast.Constant)):
+                    wr = c.right.value
+    return "(%d, %d)" % (rd, wr)
+
+
+def _networks_table() -> str:
+    """every registered network: which transaction class family and which header layout its message codecs use"""
+    import io as _io
+    from pycoin.networks.registry import network_codes, network_for_netcode
+    from pycoin.block import Block as BaseBlock
+    from pycoin.coins.bitcoin.Tx import Tx as BtcTx
+    from pycoin.coins.litecoin import LTCTx
+    from pycoin.coins.bgold.Block import Block as BtgBlock
+    rows = []
+    for code in sorted(network_codes()):
+        try:
+            n = network_for_netcode(code)
+        except Exception:  # noqa: BLE001
+            continue
+        tx, blk = n.tx, n.block
+        if tx.parse.__func__ is LTCTx.parse.__func__:
+            coin = ".ltc"
+        elif tx.parse.__func__ is BtcTx.parse.__func__:
+            mod = tx.__mro__[0].__module__ if tx.__mro__[0].__module__.startswith("pycoin.coins.") else tx.__mro__[1].__module__
+            coin = {"groestlcoin": ".grs", "bcash": ".bch", "bgold": ".btg"}.get(mod.split(".")[2], ".btc")
+        else:
+            continue  # a transaction class the models do not know: not in the table
+        pah = blk.parse_as_header.__func__
+        if pah is BaseBlock.parse_as_header.__func__:
+            hdr = "false"
+        elif pah is BtgBlock.parse_as_header.__func__:
+            hdr = "true"
+        else:
+            continue
+        if blk.parse.__func__ is not BaseBlock.parse.__func__ or blk.stream is not BaseBlock.stream and blk.stream.__qualname__ != "Block.stream":
+            continue
+        rows.append("(%s, %s, %s)" % (_lean_str(code.lower()), coin, hdr))
+    return ("/-- netcode (lower case) ↦ (transaction class family, Bitcoin-Gold header layout?) by identity of the classes' parse functions -/\n"
+            "def networks : List (List Char × Pycoin.Coin × Bool) := [\n  %s]" % ",\n  ".join(rows))
+
+
+def _streamer_state() -> str:
+    """mutable containers declared on the Streamer CLASS (shared by every instance, i.e. by every network)"""
+    from pycoin.serialize.streamer import Streamer
+    names = sorted(k for k, v in vars(Streamer).items() if isinstance(v, (dict, list, set, bytearray)))
+    return ("/-- mutable class-level attributes of `Streamer` (state shared by the streamers of all networks) -/\n"
+            "def streamerClassState : List (List Char) := [%s]" % ", ".join(_lean_str(x) for x in names))
+
+
 def _hasattr_names(path: Path, cls: str):
     res = {}
     tree = ast.parse(path.read_text())
@@ -143,7 +204,7 @@ def generate():
     from pycoin.satoshi.satoshi_int import parse_satoshi_int
     root = Path(pycoin.__file__).resolve().parent
 
-    out = ["import Pycoin.Model.MsgCodec", "namespace Pycoin.Gen.Messages", "open Pycoin.Msg (Codec)", ""]
+    out = ["import Pycoin.Model.MsgCodec", "import Pycoin.Model.Tx", "namespace Pycoin.Gen.Messages", "open Pycoin.Msg (Codec)", ""]
     msgs = mpp.standard_messages()
     out.append("/-- `standard_messages()` (STANDARD_P2P_MESSAGES): message name ↦ layout string, verbatim, in dict order -/")
     out.append("def layouts : List (List Char × List Char) := [\n  %s]" % ",\n  ".join(
@@ -198,7 +259,7 @@ def generate():
 
     seen = {}
     for rel, cls, prefix in [("message/InvItem.py", "InvItem", "invItem"), ("message/PeerAddress.py", "PeerAddress", "peerAddress"),
-                             ("block.py", "Block", "block")]:
+                             ("block.py", "Block", "block"), ("coins/bgold/Block.py", "Block", "btgBlock")]:
         for meth, kind, fmt, label in _calls(root / rel, cls):
             nm = "%s_%s_%s" % (prefix, meth.strip("_"), kind)
             # names depend on where the call is, never on the format it passes (a changed format must reach the model)
@@ -214,6 +275,15 @@ def generate():
             seen[nm] = fmt
             out.append("/-- `%s_struct(\"%s\", …)` in %s:%s.%s -/" % (kind, fmt, rel, cls, meth))
             out.append("def %s : List Char := %s" % (nm, _lean_str(fmt)))
+    # Bitcoin Gold header: the reserved area skipped by parse_as_header (`f.read(N)`) and written by stream_header (`b"\\0" * N`)
+    out.append("/-- length of the reserved area of the Bitcoin Gold header: (read by parse_as_header, written by stream_header) -/")
+    out.append("def btgReserved : Nat × Nat := %s" % _btg_reserved(root / "coins" / "bgold" / "Block.py"))
+    out.append("/-- `FORK_BLOCK` of the Bitcoin Gold Block class -/")
+    from pycoin.coins.bgold.Block import Block as BtgBlock
+    out.append("def btgForkBlock : Nat := %d" % BtgBlock.FORK_BLOCK)
+    out.append("")
+    out.append(_networks_table())
+    out.append(_streamer_state())
     # the header-hash cache of Block: which attribute names hash() and set_nonce() test with hasattr (string literals are
     # NOT name-mangled), and the mangled name under which `self.__hash = …` really stores the value
     names = _hasattr_names(root / "block.py", "Block")
